@@ -111,6 +111,32 @@ def drain_rules(facts, rep):
     ok &= rep.check(good, rule, "window=zip64-corrected-size", where(st, tk[0][1]["span"]),
                     "entry window = result.compressed_size read after the ZIP64 extra field was applied",
                     "the entry window is taken from the 32-bit header value (%s): large_file/ZIP64 entries get a 0xFFFFFFFF window" % detail)
+    # ... and so is the method the decoder is chosen by: the AE-x record replaces method 99 by the real one, so the value must be read
+    # from the metadata structure after the extra field was applied (the header local still says 99: make_reader's fall-through panics)
+    for callee, argi, key in ((r"^read::make_reader$", 0, "decoder-method"), (r"^read::make_crypto_reader$", 0, "crypto-method")):
+        cs = calls_matching(st, callee)
+        if not cs:
+            continue
+        op = cs[0][1]["args"][argi]
+        good, detail = False, "method operand is not a field load"
+        if op["k"] != "const":
+            cur, hops = {op["place"]["l"]}, 0
+            while hops < 4:
+                nxt = {s["rv"]["op"]["place"]["l"] for _, _, s in st.stmts() if s["k"] == "assign" and s["place"]["l"] in cur and not s["place"]["p"] and s["rv"]["k"] == "use"
+                       and s["rv"]["op"]["k"] in ("copy", "move") and not s["rv"]["op"]["place"]["p"]}
+                if not nxt - cur:
+                    break
+                cur |= nxt
+                hops += 1
+            for bi, si, s in st.stmts():
+                if s["k"] == "assign" and s["place"]["l"] in cur and not s["place"]["p"] and s["rv"]["k"] == "use" and s["rv"]["op"]["k"] in ("copy", "move"):
+                    fp = [p for p in s["rv"]["op"]["place"]["p"] if p["k"] == "field"]
+                    if fp and fp[-1]["n"] == "compression_method" and "ZipFileData" in (fp[-1].get("adt") or ""):
+                        good = bool(pe) and (st.dominates(pe[0][0], bi) or precedes_on_every_path(st, pe[0][0], bi) is True)
+                        detail = "compression_method loaded %s parse_extra_field" % ("after" if good else "BEFORE")
+        ok &= rep.check(good, rule, "%s=method-after-extra-field" % key, where(st, cs[0][1]["span"]),
+                        "the method handed on is result.compression_method read after the extra field was applied",
+                        "the streaming reader hands on the method as found in the fixed header (%s): an AE-x entry keeps method 99" % detail)
     # into_inner arms unwrap, never re-create
     for pat in (r"^read::ZipFileReader::<'a>::into_inner$", r"^read::CryptoReader::<'a>::into_inner$"):
         f = facts.one(pat)
